@@ -1,7 +1,5 @@
 //! rgh — correspondence harness: runs the real ripgrep crates on the cases the Coq models run on.
 //! usage: rgh KIND < cases > results        (same value syntax as the OCaml driver)
-mod val;
-mod rgcfg;
 include!("mods.rs");
 
 use std::io::{BufRead, Write};
